@@ -77,3 +77,86 @@ func ParseDirectory(b []byte) (kind string, tables []TableRef) {
 	}
 	return KindOther, nil
 }
+
+// CompositeGlyph locates the component glyph-index fields of one composite glyph of a
+// TrueType image (structure-aware, adversarial faults: reference cycles between composites).
+type CompositeGlyph struct {
+	GID          int
+	IndexOffsets []int // file offsets of the uint16 glyphIndex of every component
+}
+
+// Composites parses head/maxp/loca/glyf of a plain sfnt image and returns its composite glyphs.
+func Composites(b []byte) []CompositeGlyph {
+	kind, tabs := ParseDirectory(b)
+	if kind != KindSfnt {
+		return nil
+	}
+	find := func(tag string) *TableRef {
+		for i := range tabs {
+			if tabs[i].Tag == tag {
+				return &tabs[i]
+			}
+		}
+		return nil
+	}
+	head, maxp, loca, glyf := find("head"), find("maxp"), find("loca"), find("glyf")
+	if head == nil || maxp == nil || loca == nil || glyf == nil {
+		return nil
+	}
+	u16 := func(o int) int {
+		if o < 0 || o+2 > len(b) {
+			return 0
+		}
+		return int(binary.BigEndian.Uint16(b[o:]))
+	}
+	u32 := func(o int) int {
+		if o < 0 || o+4 > len(b) {
+			return 0
+		}
+		return int(binary.BigEndian.Uint32(b[o:]))
+	}
+	long := u16(head.Offset+50) != 0
+	n := u16(maxp.Offset + 4)
+	at := func(i int) int {
+		if long {
+			return u32(loca.Offset + 4*i)
+		}
+		return 2 * u16(loca.Offset+2*i)
+	}
+	var out []CompositeGlyph
+	for g := 0; g < n && g < 70000; g++ {
+		start, end := at(g), at(g+1)
+		if end-start < 12 || glyf.Offset+end > len(b) {
+			continue
+		}
+		p := glyf.Offset + start
+		if int16(u16(p)) >= 0 {
+			continue
+		}
+		cg := CompositeGlyph{GID: g}
+		p += 10
+		for k := 0; k < 64 && p+4 <= glyf.Offset+end; k++ {
+			flags := u16(p)
+			cg.IndexOffsets = append(cg.IndexOffsets, p+2)
+			p += 4
+			if flags&1 != 0 {
+				p += 4
+			} else {
+				p += 2
+			}
+			switch {
+			case flags&0x8 != 0:
+				p += 2
+			case flags&0x40 != 0:
+				p += 4
+			case flags&0x80 != 0:
+				p += 8
+			}
+			if flags&0x20 == 0 {
+				break
+			}
+		}
+		out = append(out, cg)
+	}
+	return out
+}
